@@ -223,6 +223,15 @@ def check(ctx):
                 ctx.fail('C09.3', site, 'matcher accepts an unexpected value: %s' % fmt(val), key='C09.3|value')
         if n_acc == 0:
             ctx.lost('C09.3', 'accept sites of the matcher')
+        # an object that is not a signature from this key must not end the scan: the per-object negative is None (continue), never Some(Ok(None))
+        term_neg = [(bi, si) for bi, si, t in ret_defs(ctb)
+                    if strip_sites(t)[0] == 'agg' and strip_sites(t)[2] == 'Some' and strip_sites(t)[3][0][0] == 'agg' and strip_sites(t)[3][0][2] == 'Ok'
+                    and strip_sites(t)[3][0][3][0][0] == 'agg' and strip_sites(t)[3][0][3][0][2] == 'None']
+        if term_neg:
+            ctx.fail('C09.3', ctx.site(cl, term_neg[0][0], term_neg[0][1]), 'a signature object that does not verify under the key ends the scan with "not signed" (Some(Ok(None))): '
+                     'a valid signature from the same key that sorts later is never reached', key='C09.3|terminating_negative')
+        elif adaptor == 'find_map':
+            ctx.ok('C09.3', ctx.site(cl), 'per-object negatives are None: the scan continues to the remaining \'signed\' objects')
         # the enclosing function returns only what the matcher produced
         for bi, si, t in accept_sites(outer_fn, otb):
             st = strip_sites(t)
